@@ -81,6 +81,15 @@ structure RecvBind where
   /-- the statement of the callback that fills the receiver slot from `recv`
       (`.slot` also stands for "no such statement": the arms wrote the slot themselves) -/
   call : SlotBind
+  /-- since 32d4f06: a receiver without node (`late = n.recv.node == nil`: the value held by an
+      interface) is not read when the wrapper is made; the callback runs the three-way switch itself -/
+  lateNilNode : Bool
+  /-- the statement of the callback for such receivers: `d[numRet].Set(bindRecv())` / `d[numRet] = bindRecv()` -/
+  lateCall : SlotBind
+  /-- run.go `genInterfaceWrapper` (conversion of a script value to a host interface): the method
+      wrappers get `receiver{val: rv, index: …}` — no node, `rv` a copy of the value the interface
+      holds — (true, since 32d4f06) or `receiver{n, v, …}` with the node of the converted expression -/
+  ifaceWrapHeld : Bool
   deriving DecidableEq, Repr, Inhabited
 
 /-- which of several embedded fields that lead to the name wins in `lookupMethod2` / `lookupField` -/
